@@ -1,16 +1,25 @@
 import json,sys
-pid=sys.argv[1]
+sid=sys.argv[1]
+pid=sid.split('-')[0]
+prev=''
+if '-' in sid:
+    import os
+    mp=f'/verif/seeded/{pid}/meta.json'
+    if os.path.exists(mp):
+        m=json.load(open(mp))
+        prev=f"\nAnother tester has ALREADY submitted the following change for this property; yours must be substantially different (a different function, mechanism or kind of trigger), not a variation of it:\n  - {m.get('summary','')[:700]}\n"
 props={json.loads(l)['id']:json.loads(l) for l in open('/verif/properties.jsonl')}
 p=props[pid]
-wt=f"/tmp/seed/{pid}"
+wt=f"/tmp/seed/{sid}"
 txt=f"""You are helping to evaluate how well a (separately built, not visible to you) verification tool detects regressions. Your job is to write a realistic, subtle BUG into a Rust repository.
 
-The repository is p2panda (modular Rust p2p toolkit). A scratch git worktree of it has been created for you at {wt} (detached at the repository's current HEAD). Work ONLY inside {wt} and /tmp/seed/out/{pid}/. Do NOT read, list or write anything under /verif, and do not modify /repo itself (reading /repo/target is not needed either). Build with a private target dir: always run cargo as `CARGO_NET_OFFLINE=true CARGO_TARGET_DIR={wt}/target cargo ... --offline` from inside {wt} (the sandbox has no network; all dependencies are cached; the first build compiles third-party crates and takes a few minutes; {wt}/target is git-ignored; do NOT share a target dir with other worktrees — cargo would mix up their artifacts).
+The repository is p2panda (modular Rust p2p toolkit). A scratch git worktree of it has been created for you at {wt} (detached at the repository's current HEAD). Work ONLY inside {wt} and /tmp/seed/out/{sid}/. Do NOT read, list or write anything under /verif, and do not modify /repo itself (reading /repo/target is not needed either). Build with a private target dir: always run cargo as `CARGO_NET_OFFLINE=true CARGO_TARGET_DIR={wt}/target cargo ... --offline` from inside {wt} (the sandbox has no network; all dependencies are cached; the first build compiles third-party crates and takes a few minutes; {wt}/target is git-ignored; do NOT share a target dir with other worktrees — cargo would mix up their artifacts).
 
 Here is a semantic property the repository is supposed to satisfy (this text is all you know about what the tool checks):
 
 {json.dumps({k:p[k] for k in ('id','title','statement','quantifier','why_tests_cant','anchors')}, indent=1)}
 
+{prev}
 Task: produce ONE change to the repository's non-test source code that BREAKS this property while the code still compiles and ALL existing tests of the affected crate(s) still pass, together with a demonstration (a new test or a small program) that FAILS with your change and PASSES without it.
 
 Requirements on the change:
@@ -18,7 +27,7 @@ Requirements on the change:
 - It must need something SPECIFIC to manifest — a particular interleaving, a crash or fault at a particular point, a multi-step sequence of operations, an unusual input or boundary value, or two cooperating sites that each look fine alone — NOT something ordinary use or the existing tests would expose at once.
 - It must really violate the property as stated (observable through the public behaviour the property talks about), not merely change internals.
 
-Deliverables, all under /tmp/seed/out/{pid}/ :
+Deliverables, all under /tmp/seed/out/{sid}/ :
 - patch.diff : `git -C {wt} diff` of the source change ONLY (no demo code in it); it must apply with `git apply` to a clean checkout of HEAD.
 - demo.diff (a patch adding a new test file or test function / example program) or demo.rs plus exact instructions; the demo must be runnable with one cargo command.
 - meta.json : {{"property": "{pid}", "summary": "...what the change does...", "needs": "...what is needed for it to manifest...", "files": [...], "demo_cmd": "...", "existing_tests_cmd": "...", "ran": ["...commands you ran and their outcome..."]}}
